@@ -142,6 +142,14 @@ pub trait HInput<'a>: Input<'a, Token: HTok, Span: HSpan> + Sized + 'a {
     fn any<E: HErr<'a, Self>>() -> Res<P<'a, Self, E>>;
     fn skip<E: HErr<'a, Self>>(n: usize) -> Res<P<'a, Self, E>>;
     fn lazy<E: HErr<'a, Self>>(a: P<'a, Self, E>) -> Res<P<'a, Self, E>>;
+    /// `AnyRef` / `(SelectRef p f)`: `any_ref()` / `select_ref(..)` on the `BorrowInput` kinds slice, bytes, array, mapped;
+    /// on the other kinds the by-value primitive (the model does not distinguish them)
+    fn any_ref<E: HErr<'a, Self>>() -> Res<P<'a, Self, E>> {
+        Self::any()
+    }
+    fn select_ref<E: HErr<'a, Self>>(p: Pred, f: Fn1) -> Res<P<'a, Self, E>> {
+        Self::select(p, f)
+    }
     /// `(Padded ws a)`: needs `ValueInput` and `Token: text::Char`; built for str, slice, bytes
     fn padded<E: HErr<'a, Self>>(_ws: &[u32], _a: P<'a, Self, E>) -> Res<P<'a, Self, E>> {
         build::unsupported("Padded: built for the str / slice / bytes kinds only")
@@ -355,6 +363,12 @@ impl<'a> HInput<'a> for &'a str {
 // ----- slice: &[char]; bytes: &[u8] -----
 
 impl<'a> HInput<'a> for &'a [char] {
+    fn any_ref<E: HErr<'a, Self>>() -> Res<P<'a, Self, E>> {
+        Ok(build::v_any_ref())
+    }
+    fn select_ref<E: HErr<'a, Self>>(p: Pred, f: Fn1) -> Res<P<'a, Self, E>> {
+        Ok(build::v_select_ref(p, f))
+    }
     fn padded<E: HErr<'a, Self>>(ws: &[u32], a: P<'a, Self, E>) -> Res<P<'a, Self, E>> {
         build::v_padded(ws, a)
     }
@@ -369,6 +383,12 @@ impl<'a> HInput<'a> for &'a [char] {
 }
 
 impl<'a> HInput<'a> for &'a [u8] {
+    fn any_ref<E: HErr<'a, Self>>() -> Res<P<'a, Self, E>> {
+        Ok(build::v_any_ref())
+    }
+    fn select_ref<E: HErr<'a, Self>>(p: Pred, f: Fn1) -> Res<P<'a, Self, E>> {
+        Ok(build::v_select_ref(p, f))
+    }
     fn padded<E: HErr<'a, Self>>(ws: &[u32], a: P<'a, Self, E>) -> Res<P<'a, Self, E>> {
         build::v_padded(ws, a)
     }
@@ -385,6 +405,12 @@ impl<'a> HInput<'a> for &'a [u8] {
 // ----- array: &[char; N] -----
 
 impl<'a, const N: usize> HInput<'a> for &'a [char; N] {
+    fn any_ref<E: HErr<'a, Self>>() -> Res<P<'a, Self, E>> {
+        Ok(build::v_any_ref())
+    }
+    fn select_ref<E: HErr<'a, Self>>(p: Pred, f: Fn1) -> Res<P<'a, Self, E>> {
+        Ok(build::v_select_ref(p, f))
+    }
     type Conv = Cur<&'a [char]>;
     fn pos(cv: &Self::Conv, raw: usize) -> Pos {
         index_pos(cv.get().len(), raw)
@@ -490,6 +516,12 @@ pub type MappedIn<'a> =
     MappedInput<char, SimpleSpan<usize>, &'a [Spanned], fn(&'a Spanned) -> (&'a char, &'a SimpleSpan<usize>)>;
 
 impl<'a> HInput<'a> for MappedIn<'a> {
+    fn any_ref<E: HErr<'a, Self>>() -> Res<P<'a, Self, E>> {
+        Ok(build::v_any_ref())
+    }
+    fn select_ref<E: HErr<'a, Self>>(p: Pred, f: Fn1) -> Res<P<'a, Self, E>> {
+        Ok(build::v_select_ref(p, f))
+    }
     type Conv = Cur<&'a [Spanned]>;
     fn pos(_cv: &Self::Conv, raw: usize) -> Pos {
         Pos::Ix(raw)
